@@ -161,6 +161,16 @@ func handlerProbes() []string {
 			}
 		}
 	}
+	// long runs of a single byte (continuation bytes, lead bytes, 0xFF, control, space, punctuation) through
+	// everything that echoes, splits or stores its argument
+	for _, fill := range []byte{0x80, 0xbf, 0xc3, 0xe3, 0xff, 0x01, 'a', ' ', '.', ':'} {
+		for _, n := range []int{447, 451, 700} {
+			run := strings.Repeat(string([]byte{fill}), n)
+			res = append(res, ":x!y@z PRIVMSG me :\x01PING "+run+"\x01", ":x!y@z PRIVMSG me :\x01VERSION "+run+"\x01",
+				"PING :"+run, ":srv 433 * "+run+" :in use", ":x!y@z NICK :"+run, ":me!i@h JOIN #"+run, ":srv 001 me :Welcome "+run,
+				":x!y@z TOPIC #c :"+run, ":srv CAP * LS :"+run, "AUTHENTICATE "+run, ":x!y@z PRIVMSG #c :"+run)
+		}
+	}
 	return res
 }
 
@@ -255,7 +265,7 @@ func RunSurviveChild(args []string) int {
 		// the probes may make the client talk (PONG, NICK, MODE, WHO ...): keep reading
 		select {
 		case <-done:
-		case <-time.After(30 * time.Second):
+		case <-time.After(12 * time.Second):
 		}
 		mu.Lock()
 		for i, l := range job.Lines {
